@@ -1,3 +1,72 @@
-From NCG Require Import Model.Revocation.
-Theorem C05_placeholder : True. Proof. exact I. Qed.
-Print Assumptions C05_placeholder.
+(* C05 - CRL yields OK only if every distribution point gave an authentic, current CRL.
+   Statements only; proofs in Proofs/CrlCheck.v.  [fetch] is what the fetcher returns per URL
+   (arbitrary function), [freshest] = the certificate carries a freshest-CRL pointer.
+   PointGood / PointClear / PointRevokes / PointFails / BundleGood / CrlGood / DeltaGood are the
+   declarative readings of the property text (Proofs/CrlCheck.v, top). *)
+From NCG Require Import Model.Crl Proofs.Crl Proofs.CrlCheck.
+
+Theorem C05_ok_iff : forall fetch now st serial freshest urls, urls <> [] ->
+  (cr_result (fst (crl_check fetch now st serial freshest urls)) = ROK <->
+   forall u, In u urls -> PointClear fetch now st serial freshest u).
+Proof. exact ok_iff. Qed.
+Print Assumptions C05_ok_iff.
+
+(* what "authentic, current, delta consistent" means is exactly what the validation computes *)
+Theorem C05_bundle_good_iff : forall now b, validate_bundle now b = true <-> BundleGood now b.
+Proof. exact bundle_good_iff. Qed.
+Print Assumptions C05_bundle_good_iff.
+
+(* any point failing (or listing the certificate): Unknown, or Revoked when that first
+   non-clear point lists the certificate (every earlier point was clear) *)
+Theorem C05_not_ok_cases : forall fetch now st serial freshest urls, urls <> [] ->
+  (exists u, In u urls /\ ~ PointClear fetch now st serial freshest u) ->
+  exists l1 u l2, urls = l1 ++ u :: l2 /\ (forall v, In v l1 -> PointClear fetch now st serial freshest v) /\
+    ((PointRevokes fetch now st serial freshest u /\
+      fst (crl_check fetch now st serial freshest urls) = CRes RRevoked [SRes RRevoked u] MCRL) \/
+     (PointFails fetch now st serial freshest u /\
+      fst (crl_check fetch now st serial freshest urls) = CRes RUnknown [SRes RUnknown u] MCRL)).
+Proof. exact not_ok_cases. Qed.
+Print Assumptions C05_not_ok_cases.
+
+Theorem C05_exact : forall fetch now st serial freshest urls, urls <> [] ->
+  fst (crl_check fetch now st serial freshest urls) =
+  match find (fun u => negb (clear_b fetch now st serial freshest u)) urls with
+  | None => CRes ROK (map (SRes ROK) urls) MCRL
+  | Some u => CRes (stop_result fetch now st serial freshest u) [SRes (stop_result fetch now st serial freshest u) u] MCRL
+  end.
+Proof. exact crl_check_exact. Qed.
+Print Assumptions C05_exact.
+
+Theorem C05_point_iff : forall fetch now st serial freshest u r,
+  point_check fetch now st serial freshest u = Some r <->
+  exists b, PointGood fetch now st serial freshest u b /\ scan serial st None (bundle_entries b) = r.
+Proof. exact point_check_some. Qed.
+Print Assumptions C05_point_iff.
+
+Theorem C05_delta_boundaries : forall now base d nb,
+  CrlGood now base -> CrlGood now d -> l_number base = Some nb ->
+  (forall nd, l_number d = Some nd -> nd <= nb -> validate_bundle now (Bundle base (Some d)) = false) /\
+  (forall nd ind, l_number d = Some nd -> nb < nd -> find_indicator (l_exts d) = Some (Some ind) ->
+     (validate_bundle now (Bundle base (Some d)) = true <-> ind <= nb)) /\
+  (find_indicator (l_exts d) = None \/ find_indicator (l_exts d) = Some None \/ l_number d = None ->
+     validate_bundle now (Bundle base (Some d)) = false).
+Proof. exact delta_boundaries. Qed.
+Print Assumptions C05_delta_boundaries.
+
+Theorem C05_shape : forall fetch now st serial freshest urls, urls <> [] ->
+  let c := fst (crl_check fetch now st serial freshest urls) in
+  cr_method c = MCRL /\
+  match cr_result c with
+  | ROK => cr_servers c = map (SRes ROK) urls
+  | RNonRevokable => False
+  | r => exists u, In u urls /\ cr_servers c = [SRes r u]
+  end.
+Proof. exact shape. Qed.
+Print Assumptions C05_shape.
+
+(* every point up to the first non-clear one is fetched, in order, and nothing after it *)
+Theorem C05_fetch_log : forall fetch now st serial freshest urls,
+  exists rest, urls = snd (crl_check fetch now st serial freshest urls) ++ rest /\
+    (cr_result (fst (crl_check fetch now st serial freshest urls)) = ROK -> rest = []).
+Proof. exact log_prefix. Qed.
+Print Assumptions C05_fetch_log.
